@@ -182,7 +182,7 @@ def gen_case(rng, gpg=None, stratum=None, force_state=None):
                 shp = [s for s in ivs if s in ("len_minus", "len_plus", "upper", "bare_string",
                                                 "extra_field", "none", "number", "list", "sig_not_str",
                                                 "empty_dict", "gpg_valid_in_raw", "raw_valid_in_gpg",
-                                                "bad_see_also", "hdr_upper", "hdr_odd", "hdr_empty", "hdr_hex_whitespace")]
+                                                "bad_see_also", "hdr_upper", "hdr_odd", "hdr_empty", "hdr_hex_whitespace", "hdr_hex_trailing_lf")]
                 add(rest[0].hex, force_state if force_state in ivs else rng.choice(shp), rest[0])
         elif filt == "spelling":
             # valid entry by an authorized key, filed under another spelling of it
